@@ -57,7 +57,8 @@ FRAGMENTS = {
     # longer pieces for the elastic-network options (C15): one chain of ten residues; two chains of four and three residues
     'bta3-12': ('1bta.pdb', [('A', 3, 12)]),
     'bta-two-chains-6': ('1bta.pdb', [('A', 3, 8, 'A'), ('A', 19, 21, 'B')]),
-    'bta15-22': ('1bta.pdb', [('A', 15, 18, 'A'), ('A', 19, 22, 'B')]),        # two chains that touch (consecutive in the protein)
+    'bta15-22': ('1bta.pdb', [('A', 15, 18, 'A'), ('A', 19, 22, 'B')]),
+    'bta3-22': ('1bta.pdb', [('A', 3, 22)]),                                     # helix and loop, for the DSSP route (C17)        # two chains that touch (consecutive in the protein)
 }
 OPTIONS = {
     'default': [],
@@ -428,7 +429,7 @@ def run(ctx):
         optsets['ala1-zwitterion'] = ['default', 'elastic']
         optsets['bta-two-chains'] = ['default', 'elastic', 'merge', 'merge-all-elastic', 'nt']
         optsets['ala5-altloc'] = ['default', 'elastic']
-        for skip in ('bta3-12', 'bta-two-chains-6', 'bta15-22'):      # inputs of other properties' CLI layers
+        for skip in ('bta3-12', 'bta-two-chains-6', 'bta15-22', 'bta3-22'):      # inputs of other properties' CLI layers
             optsets.pop(skip, None)
             inputs.remove(skip)
         seeds = list(range(16)) + [100 + ctx.seed % 1000]
